@@ -124,23 +124,28 @@ pub fn st_basisconv(a: &[u64; 2], b: &[u64; 2]) -> (i64, i64, i64, i64, u32) {
     kani::assume(e0 > -lim && e0 < lim && e1 > -lim && e1 < lim);
     kani::assume(f0 > -lim && f0 < lim && f1 > -lim && f1 < lim);
     let (e0w, e1w, f0w, f1w) = (e0 as i128, e1 as i128, f0 as i128, f1 as i128);
-    // u0 = e0*a + e1*b, v0 = f0*a + f1*b, exact, in base 2^57
-    let ul = e0w * al + e1w * bl_;
-    let uh = e0w * ah + e1w * bh + (ul >> 57);
-    let vl = f0w * al + f1w * bl_;
-    let vh = f0w * ah + f1w * bh + (vl >> 57);
+    // u0 = e0*a + e1*b, v0 = f0*a + f1*b, exact, in base 2^57 (wrapping
+    // operators only to avoid posing overflow checks on stub code: with the
+    // ranges assumed above every product is below 2^121 and every sum below
+    // 2^123 in absolute value)
+    let mul = |x: i128, y: i128| x.wrapping_mul(y);
+    let add = |x: i128, y: i128| x.wrapping_add(y);
+    let ul = add(mul(e0w, al), mul(e1w, bl_));
+    let uh = add(add(mul(e0w, ah), mul(e1w, bh)), ul >> 57);
+    let vl = add(mul(f0w, al), mul(f1w, bl_));
+    let vh = add(add(mul(f0w, ah), mul(f1w, bh)), vl >> 57);
     kani::assume(uh > -64 && uh < 64 && vh > -64 && vh < 64);
-    let u0 = (uh << 57) + (ul & (M57 as i128));
-    let v0 = (vh << 57) + (vl & (M57 as i128));
+    let u0 = add(uh << 57, ul & (M57 as i128));
+    let v0 = add(vh << 57, vl & (M57 as i128));
     let l62 = 1i128 << 62;
     kani::assume(u0 > -l62 && u0 < l62 && v0 > -l62 && v0 < l62);
-    let det = e0w * f1w - e1w * f0w;
+    let det = add(mul(e0w, f1w), -mul(e1w, f0w));
     kani::assume(det == 1 || det == -1);
-    let nu = u0 * u0 + e0w * e0w;
-    let nv = v0 * v0 + f0w * f0w;
-    let sp = u0 * v0 + e0w * f0w;
+    let nu = add(mul(u0, u0), mul(e0w, e0w));
+    let nv = add(mul(v0, v0), mul(f0w, f0w));
+    let sp = add(mul(u0, v0), mul(e0w, f0w));
     kani::assume(nu <= nv);
-    kani::assume(2 * sp <= nu && -2 * sp <= nu);
+    kani::assume(sp.wrapping_mul(2) <= nu && sp.wrapping_mul(-2) <= nu);
     kani::assume(bl == bitlen_u128(nv as u128));
     (e0, e1, f0, f1, bl)
 }
@@ -174,7 +179,9 @@ pub fn st_spec128(a0: &[u64; 2], a1: &[u64; 2], b0: &[u64; 2], b1: &[u64; 2])
         let a1s = a1[0] as i64 as i128;
         let b1s = b1[0] as i64 as i128;
         kani::assume(a1[1] == ((a1[0] as i64) >> 63) as u64 && b1[1] == ((b1[0] as i64) >> 63) as u64);
-        let w1 = xw * a1s + yw * b1s;
+        let mul = |p: i128, q: i128| p.wrapping_mul(q);
+        let add = |p: i128, q: i128| p.wrapping_add(q);
+        let w1 = add(mul(xw, a1s), mul(yw, b1s));
         // first coordinates: signed 128-bit, |.| < 2^123 (57 + 65 bits + sign)
         let a0l = a0[0] as i128;
         let a0h = a0[1] as i64 as i128;
@@ -182,15 +189,15 @@ pub fn st_spec128(a0: &[u64; 2], a1: &[u64; 2], b0: &[u64; 2], b1: &[u64; 2])
         let b0h = b0[1] as i64 as i128;
         let l59 = 1i128 << 59;
         kani::assume(a0h >= -l59 && a0h < l59 && b0h >= -l59 && b0h < l59);
-        let wl = xw * a0l + yw * b0l;
-        let wh = xw * a0h + yw * b0h + (wl >> 64);
+        let wl = add(mul(xw, a0l), mul(yw, b0l));
+        let wh = add(add(mul(xw, a0h), mul(yw, b0h)), wl >> 64);
         let wlow = wl as u64;
         kani::assume((wh == 0 && (wlow >> 63) == 0) || (wh == -1 && (wlow >> 63) == 1));
         let w0 = wlow as i64 as i128;
         let l63 = 1i128 << 63;
         kani::assume(w1 > -l63 && w1 < l63);
         kani::assume(w0 != 0 || w1 != 0);
-        let nw = (w0 * w0 + w1 * w1) as u128;
+        let nw = add(mul(w0, w0), mul(w1, w1)) as u128;
         kani::assume(nw <= unsafe { G_CERT });
     } else {
         // N(v) < 2^208: both second coordinates are below 2^104 in absolute value
@@ -239,7 +246,7 @@ fn split_glue<const M0: u64, const M1: u64, const M2: u64, const M3: u64>(mode: 
     unsafe {
         G_MOD = m;
         G_MODE = mode;
-        G_CERT = c * c;
+        G_CERT = c.wrapping_mul(c);
         G_BL1 = 0; G_BL2 = 0; G_NMUL = 0; G_L192 = 0; G_L256 = 0;
     }
     // Montgomery representation: real arithmetic natively, opaque under Kani
